@@ -323,7 +323,7 @@ termination_by structural items
 `some false` = go on with the next item, `none` = return null. -/
 def inItem (left : Value) (item : Value) : Option Bool :=
   match item with
-  | .str _ | .num _ | .bool _ | .date .. | .time _ | .dateTime _ | .ymDur _ | .dtDur _ | .ctx _ =>
+  | .str _ | .num _ | .bool _ | .date .. | .time _ | .dateTime _ | .ymDur _ | .dtDur _ | .ctx _ | .null =>
     some (isTrue (inEqual left item))
   | .unaryLt inner => some (isTrue (inUnaryLt left inner))
   | .unaryLe inner => some (isTrue (inUnaryLe left inner))
@@ -335,43 +335,16 @@ def inItem (left : Value) (item : Value) : Option Bool :=
 termination_by structural item
 end
 
-/-- `eval_in_negated_list` -/
+/-- `eval_in_negated_list` (since 8567387): the negation of `eval_in_list`; a result that is not
+a boolean (null for an item of a kind `eval_in_list` does not handle) is handed on. -/
 def inNegatedList (left : Value) (items : List Value) : Value :=
-  match items with
-  | [] => .bool true
-  | item :: rest =>
-    match item with
-    | .num _ | .str _ => if isTrue (inEqual left item) then .bool false else inNegatedList left rest
-    | .unaryLt inner => if isTrue (inUnaryLt left inner) then .bool false else inNegatedList left rest
-    | .unaryLe inner => if isTrue (inUnaryLe left inner) then .bool false else inNegatedList left rest
-    | .unaryGt inner => if isTrue (inUnaryGt left inner) then .bool false else inNegatedList left rest
-    | .unaryGe inner => if isTrue (inUnaryGe left inner) then .bool false else inNegatedList left rest
-    | _ => .null
+  match inList left items with
+  | .bool b => .bool (!b)
+  | other => other
 
-/-- One step of the inner search of `eval_in_list_in_list`: find the first still available
-element of `rhs` equal to `l`; returns the availability flags after removing it. -/
-def takeAvailable (l : Value) : List Value → List Bool → Option (List Bool)
-  | r :: rs, a :: as =>
-    if a && isTrue (inEqual l r) then some (false :: as)
-    else (takeAvailable l rs as).map (a :: ·)
-  | _, _ => none
-
-def allFound (lhs rhs : List Value) (avail : List Bool) : Bool :=
-  match lhs with
-  | [] => true
-  | l :: ls =>
-    match takeAvailable l rhs avail with
-    | some avail' => allFound ls rhs avail'
-    | none => false
-
-/-- `eval_in_list_in_list`: only the *first* list item of `items` is ever examined. -/
+/-- `eval_in_list_in_list`: the list is equal to one of the items. -/
 def inListInList (lhs : List Value) (items : List Value) : Value :=
-  match items with
-  | [] => .bool false
-  | item :: rest =>
-    match item with
-    | .list rhs => .bool (allFound lhs rhs (rhs.map (fun _ => true)))
-    | _ => inListInList lhs rest
+  .bool (items.any (fun item => isTrue (inEqual (.list lhs) item)))
 
 /-- `build_in` after both operands are evaluated. -/
 def inV (l r : Value) : Value :=
@@ -388,10 +361,7 @@ def inV (l r : Value) : Value :=
   | .unaryLe inner => inUnaryLe l inner
   | .unaryGt inner => inUnaryGt l inner
   | .unaryGe inner => inUnaryGe l inner
-  | .irrelevant =>
-    match l with
-    | .null => .bool false
-    | _ => .bool true
+  | .irrelevant => .bool true
   | _ => .null
 
 /-- `build_out`: `inv` is the value of `In(lhs, rhs)`, `lhv` the value of `lhs`. -/
